@@ -38,7 +38,7 @@ func init() {
 // Seg is a template segment: a literal or the placeholder {N}.
 type Seg struct {
 	Param bool
-	S     string // literal text
+	S     string // literal text; with Param: a literal prefix inside the segment ("key=" in key={value}, "v" in v{ver})
 	N     string // placeholder name
 }
 
@@ -69,7 +69,7 @@ func (o Op) Template() string {
 	for _, s := range o.Segs {
 		b.WriteByte('/')
 		if s.Param {
-			b.WriteString("{" + s.N + "}")
+			b.WriteString(s.S + "{" + s.N + "}")
 		} else {
 			b.WriteString(s.S)
 		}
@@ -87,7 +87,7 @@ func (o Op) Shape() string {
 	for _, s := range o.Segs {
 		b.WriteByte('/')
 		if s.Param {
-			b.WriteString("{}")
+			b.WriteString(s.S + "{}")
 		} else {
 			b.WriteString(s.S)
 		}
@@ -117,7 +117,9 @@ func (a API) JSON() M {
 	for _, o := range a.Ops {
 		segs := make([]M, 0, len(o.Segs))
 		for _, s := range o.Segs {
-			if s.Param {
+			if s.Param && s.S != "" {
+				segs = append(segs, M{"k": "pre", "s": trace.B(s.S), "n": trace.B(s.N)})
+			} else if s.Param {
 				segs = append(segs, M{"k": "param", "s": []int{}, "n": trace.B(s.N)})
 			} else {
 				segs = append(segs, M{"k": "lit", "s": trace.B(s.S), "n": []int{}})
@@ -140,8 +142,8 @@ func apiFromJSON(v any) API {
 		o := Op{Method: trace.Str(om["method"]), Trail: drv.Bool(om["trail"])}
 		for _, sv := range drv.List(om["segs"]) {
 			sm := drv.Map(sv)
-			if drv.Str(sm["k"]) == "param" {
-				o.Segs = append(o.Segs, Seg{Param: true, N: trace.Str(sm["n"])})
+			if k := drv.Str(sm["k"]); k == "param" || k == "pre" {
+				o.Segs = append(o.Segs, Seg{Param: true, S: trace.Str(sm["s"]), N: trace.Str(sm["n"])})
 			} else {
 				o.Segs = append(o.Segs, Seg{S: trace.Str(sm["s"])})
 			}
@@ -343,13 +345,24 @@ func wellFormed(ops []Op) bool {
 		}
 		seen[o.Shape()] = true
 		names := map[string]bool{}
+		anchored, needsAnchor := false, false
 		for _, s := range o.Segs {
 			if s.Param {
 				if names[s.N] {
 					return false
 				}
 				names[s.N] = true
+				// denco treats a key as parameterised only when it contains "/:" or "=:": a placeholder that neither
+				// opens its segment nor follows '=' needs another one in the template that does
+				if s.S == "" || strings.HasSuffix(s.S, "=") {
+					anchored = true
+				} else {
+					needsAnchor = true
+				}
 			}
+		}
+		if needsAnchor && !anchored {
+			return false
 		}
 	}
 	return true
@@ -364,7 +377,7 @@ func descriptor(a API, via string, reqs []Req, enumPool []Target, enumMax int, e
 	for _, p := range enumPool {
 		pool = append(pool, append([]int{}, p...))
 	}
-	return M{"api": a.JSON(), "via": via, "reqs": rs, "conc": 0, "procs": 0, "yield": false,
+	return M{"api": a.JSON(), "via": via, "reqs": rs, "conc": 0, "procs": 0, "yield": false, "debug": false,
 		"enum": M{"pool": pool, "max": enumMax, "methods": trace.BB(enumMethods)}}
 }
 
@@ -374,6 +387,12 @@ func descriptor(a API, via string, reqs []Req, enumPool []Target, enumMax int, e
 // decoding of the captured values); it makes interleavings of concurrent requests likely instead of rare.
 func concurrent(d M, conc, procs int, yield bool) M {
 	d["conc"], d["procs"], d["yield"] = conc, procs, yield
+	return d
+}
+
+// debugOn: the case runs with the package option middleware.Debug = true (verbose logging; the logger stays muted).
+func debugOn(d M, on bool) M {
+	d["debug"] = on
 	return d
 }
 
@@ -497,7 +516,7 @@ func generate(c *drv.Ctx) {
 		for k := 0; k < nreq; k++ {
 			reqs = append(reqs, randomReq(c, a))
 		}
-		c.Case(descriptor(a, via, reqs, nil, 0, nil))
+		c.Case(debugOn(descriptor(a, via, reqs, nil, 0, nil), n%4 == 1))
 	}
 
 	// (iv) concurrent requests: batches of N in {8, 64} requests served simultaneously from N goroutines against ONE
@@ -561,7 +580,7 @@ func generate(c *drv.Ctx) {
 				{Method: "GET", Segs: []Seg{lit("compare"), par(x), lit("with"), par(y)}},
 				{Method: "GET", Segs: []Seg{par(x), par(y)}},
 				{Method: "POST", Segs: []Seg{lit("a"), par(y), par(x), lit("b")}}}}
-			c.Case(descriptor(a, []string{"routes", "api"}[(i+j)%2], prefixReqs(a), nil, 0, nil))
+			c.Case(debugOn(descriptor(a, []string{"routes", "api"}[(i+j)%2], prefixReqs(a), nil, 0, nil), (i+j)%3 == 0))
 			nPre++
 		}
 	}
@@ -579,6 +598,90 @@ func generate(c *drv.Ctx) {
 		nPre++
 	}
 	c.Extra["prefix_name_cases"] = nPre
+
+	// (vi) placeholders that do not open their segment (key={value}, v{ver}, rev-{n}) x values made of the bytes the trie
+	// reserves (':' '*' '#'), alone, doubled, leading, trailing, escaped, and the empty value (named deviation EmptyPrefixedParam)
+	{
+		ops := []Op{
+			{Method: "GET", Segs: []Seg{lit("items"), {Param: true, S: "key=", N: "value"}}},
+			{Method: "POST", Segs: []Seg{lit("items"), {Param: true, S: "key=", N: "value"}}},
+			{Method: "GET", Segs: []Seg{{Param: true, S: "v", N: "ver"}, lit("pets"), par("id")}},
+			{Method: "GET", Segs: []Seg{lit("a"), {Param: true, S: "k=", N: "x"}, lit("b")}},
+			{Method: "PUT", Segs: []Seg{par("id"), {Param: true, S: "rev-", N: "n"}}},
+			{Method: "GET", Segs: []Seg{lit("items"), par("other")}}}
+		values := []Target{plain(":"), plain("*"), plain("#"), {escU('#')}, plain("::"), plain(":a"), plain("a:"), plain("*a"), plain("a*"),
+			{'a', escU('#'), 'b'}, {escU(':')}, {escL('*')}, plain("a"), {}, plain(":*"), {'k', '=', ':'}, plain("=:"), plain("5")}
+		nv := 0
+		for _, b := range []Base{baseSpellings[0], baseSpellings[2], baseSpellings[5]} {
+			a := API{Base: b, Ops: ops}
+			for _, via := range []string{"routes", "api", "server"} {
+				var reqs []Req
+				for _, o := range ops {
+					for pi := range o.Segs {
+						if !o.Segs[pi].Param {
+							continue
+						}
+						for _, v := range values {
+							var segs []Target
+							for _, bs := range b.Segs {
+								segs = append(segs, plain(bs))
+							}
+							for si, sg := range o.Segs {
+								switch {
+								case !sg.Param:
+									segs = append(segs, atomsOf(sg.S))
+								case si == pi:
+									segs = append(segs, append(atomsOf(sg.S), v...))
+								default:
+									segs = append(segs, append(atomsOf(sg.S), '5'))
+								}
+							}
+							m := o.Method
+							if nv%7 == 3 {
+								m = strings.ToLower(m)
+							}
+							reqs = append(reqs, Req{Method: m, Target: segsTarget(segs, false)})
+							nv++
+						}
+					}
+				}
+				c.Case(debugOn(descriptor(a, via, reqs, nil, 0, nil), nv%2 == 0))
+			}
+		}
+	}
+
+	// (vii) operations next to the documentation paths, through the full API handler: templates under <basePath>/docs and
+	// under /swagger.json stay reachable; requests at exactly <basePath>/docs and /swagger.json are answered by the docs
+	// middlewares (named deviation DocsShadow, the subject of C20) and are not judged here
+	for bi, b := range []Base{baseSpellings[0], baseSpellings[1], baseSpellings[2], baseSpellings[5]} {
+		a := API{Base: b, Ops: []Op{
+			{Method: "GET", Segs: []Seg{lit("docs"), par("id")}},
+			{Method: "PUT", Segs: []Seg{lit("docs"), par("id"), lit("pages"), par("n")}},
+			{Method: "GET", Segs: []Seg{lit("swagger.json"), par("x")}},
+			{Method: "GET", Segs: []Seg{lit("docsx")}},
+			{Method: "GET", Segs: []Seg{lit("docs")}},
+			{Method: "POST", Segs: []Seg{par("x")}},
+			{Method: "GET", Segs: []Seg{lit("docs.json")}}}}
+		var reqs []Req
+		pre := ""
+		for _, bs := range b.Segs {
+			pre += "/" + bs
+		}
+		for _, t := range []string{"/docs", "/docs/", "/docs/5", "/docs/index.html", "/docs/5/pages/7", "/docs/5/pages", "/docsx", "/docs.json",
+			"/swagger.json", "/swagger.json/1", "/docs/../docs/9", "/doc", "/docs/%2F", "/do%63s/3"} {
+			for _, m := range []string{"GET", "PUT", "POST"} {
+				reqs = append(reqs, Req{Method: m, Target: atomsOf(pre + t)})
+			}
+		}
+		reqs = append(reqs, Req{Method: "GET", Target: plain("/swagger.json")}, Req{Method: "GET", Target: plain("/swagger.json/a")},
+			Req{Method: "GET", Target: plain("/docs")}, Req{Method: "GET", Target: plain("/docs/1")})
+		for k := 0; k < 30; k++ {
+			reqs = append(reqs, randomReq(c, a))
+		}
+		for _, via := range []string{"api", "routes"} {
+			c.Case(debugOn(descriptor(a, via, reqs, nil, 0, nil), bi%2 == 1))
+		}
+	}
 }
 
 func hasParamOp(a API) bool {
@@ -616,7 +719,7 @@ func uniqueReq(c *drv.Ctx, a API, i int) Req {
 		case 1:
 			t = append(Target{escU('%')}, t...)
 		}
-		segs = append(segs, t)
+		segs = append(segs, append(atomsOf(s.S), t...))
 	}
 	m := o.Method
 	switch r.Intn(10) {
@@ -707,6 +810,10 @@ func randomAPI(c *drv.Ctx) API {
 }
 
 func randSeg(c *drv.Ctx) Seg {
+	if c.Rng.Intn(12) == 0 {
+		// a placeholder behind a literal prefix inside its segment
+		return Seg{Param: true, S: []string{"key=", "id=", "k=", "v", "rev-"}[c.Rng.Intn(5)], N: pnames[c.Rng.Intn(len(pnames))]}
+	}
 	if c.Rng.Intn(5) < 2 {
 		return par(pnames[c.Rng.Intn(len(pnames))])
 	}
@@ -751,7 +858,7 @@ func randomReq(c *drv.Ctx, a API) Req {
 	}
 	for _, s := range o.Segs {
 		if s.Param {
-			segs = append(segs, randText(c))
+			segs = append(segs, append(atomsOf(s.S), randText(c)...))
 		} else if r.Intn(25) == 0 && len(s.S) > 0 {
 			// the literal with one byte escaped: does not instantiate the literal textually
 			t := atomsOf(s.S)
@@ -920,6 +1027,11 @@ func execute(c *drv.Ctx, d M) bool {
 	}
 	if err := api.Validate(); err != nil {
 		panic(fmt.Sprintf("c01: generated API does not validate: %v", err))
+	}
+	if drv.Bool(d["debug"]) {
+		prev := middleware.Debug
+		middleware.Debug = true
+		defer func() { middleware.Debug = prev }()
 	}
 	if drv.Bool(d["yield"]) {
 		// debug mode is read from the environment when the context, router and binders are constructed
